@@ -15,16 +15,17 @@ FUNCTIONS = [("pandapower.control.controller.const_control", "ConstControl.set_r
              ("pandapower.pf.run_newton_raphson_pf", "_run_ac_pf_without_qlims_enforced"),
              ("pandapower.pf.run_newton_raphson_pf", "_get_Y_bus"), ("pandapower.pf.run_newton_raphson_pf", "_get_Sbus"),
              ("pandapower.pf.run_dc_pf", "_run_dc_pf"), ("pandapower.pypower.makeBdc", "makeBdc"),
+             ("pandapower.timeseries.read_batch_results", "v_to_i_s"), ("pandapower.pf.pfsoln_numba", "calc_branch_flows_batch"),
              ("pandapower.pypower.makeYbus", "makeYbus"), ("pandapower.pypower.makeSbus", "makeSbus"),
              ("pandapower.build_bus", "_calc_pq_elements_and_add_on_ppc"), ("pandapower.build_branch", "_calc_line_parameter"),
              ("pandapower.build_branch", "_calc_trafo_parameter"), ("pandapower.build_gen", "_build_gen_ppc"),
              ("pandapower.timeseries.output_writer", "OutputWriter.get_batch_outputs")]
-STUBS = ["newtonpf (the Newton iteration) -> captures the (Ybus, Sbus, V0, bus types) it is given and stops: two runs that hand Newton the same "
+STUBS = ["polar_to_rad (cmath.rect, compiled) -> unit-circle phasors of the same symbolic vm / va (batch_flows_* only)", "newtonpf (the Newton iteration) -> captures the (Ybus, Sbus, V0, bus types) it is given and stops: two runs that hand Newton the same "
          "system return the same solution", "dcpf (linear solve) -> captures (B, Pbus, Va0)"]
 ASSUMPTIONS = ["one ConstControl-controlled column at a time becomes symbolic (new value x_new in a positive range), previous step concrete",
                "the recycle flags are those the real ConstControl.set_recycle and _check_controller_recyclability compute for that controller"]
 OUTSIDE = ["controllers other than ConstControl", "OutputWriter file formats", "tap-dependent trafo3w rows (thorough only)"]
-BOUNDS = {"quick": "3 buses (110/20/20 kV), trafo, line, load, sgen, gen, storage; 24 (element, variable) pairs x {runpp, rundcpp}",
+BOUNDS = {"quick": "3 buses (110/20/20 kV), trafo, line, load, sgen, gen, storage; 24 (element, variable) pairs x {runpp, rundcpp}; 5 pairs on a net with an open line switch, an open trafo switch and a line at an out of service bus; batch branch flows on a 5-bus feeder (all supplied / unsupplied branches / out of service bus)",
           "thorough": "same + trafo3w net"}
 
 AC_PAIRS = [("load", "p_mw"), ("load", "q_mvar"), ("load", "scaling"), ("sgen", "p_mw"), ("sgen", "q_mvar"), ("sgen", "scaling"),
@@ -44,8 +45,8 @@ class _Stop(Exception):
     pass
 
 
-def _net(element, var, ac):
-    key = (element, var, ac)
+def _net(element, var, ac, topo=None):
+    key = (element, var, ac, topo)
     if key in _cache:
         return _cache[key]
     from pandapower.control import ConstControl
@@ -62,6 +63,15 @@ def _net(element, var, ac):
     pp.create_sgen(net, b2, 0.2, 0.1)
     pp.create_storage(net, b2, 0.1, 1., q_mvar=0.05)
     pp.create_gen(net, b1, 0.5, vm_pu=1.01)
+    if topo == "open_switches":
+        # branches whose ppc rows differ from the element tables: an end moved to an auxiliary bus by an open switch / an out of service bus
+        b3 = pp.create_bus(net, 20., in_service=False)
+        pp.create_line_from_parameters(net, b1, b2, 3., 0.2, 0.15, 12, 1.)
+        pp.create_transformer_from_parameters(net, b0, b1, 25, 110, 20, 0.4, 10, 15, 0.06, tap_side="hv", tap_neutral=0, tap_min=-2, tap_max=2,
+                                              tap_step_percent=1.5, tap_pos=1, tap_changer_type="Ratio", shift_degree=0.)
+        pp.create_line_from_parameters(net, b2, b3, 1., 0.1, 0.1, 10, 1.)
+        pp.create_switch(net, b2, 1, "l", closed=False)
+        pp.create_switch(net, b1, 1, "t", closed=False)
     ConstControl(net, element, var, element_index=[0], profile_name=None, data_source=None)
     recycle = _check_controller_recyclability(net)
     if ac:
@@ -111,9 +121,9 @@ def _dense(ctx, M):
     return np.asarray(A)
 
 
-def make_ac(element, var):
+def make_ac(element, var, topo=None):
     def fn(ctx):
-        net0, recycle = _net(element, var, True)
+        net0, recycle = _net(element, var, True, topo)
         if not isinstance(recycle, dict):
             ctx.true("not_recycled_by_design", True)
             return
@@ -178,9 +188,9 @@ def make_ac(element, var):
     return fn
 
 
-def make_dc(element, var):
+def make_dc(element, var, topo=None):
     def fn(ctx):
-        net0, recycle = _net(element, var, False)
+        net0, recycle = _net(element, var, False, topo)
         if not isinstance(recycle, dict):
             ctx.true("not_recycled_by_design", True)
             return
@@ -290,17 +300,93 @@ def make_batch(trafo_loading):
     return fn
 
 
+_FNET = {}
+
+
+def _flow_net(kind):
+    """radial feeder; kind 'unsupplied': line 1 is out of service, so lines 2 and 3 are in service but not part of the solved network"""
+    if kind not in _FNET:
+        net = pp.create_empty_network()
+        b = [pp.create_bus(net, 20.) for _ in range(5)]
+        pp.create_ext_grid(net, b[0])
+        for k in range(4):
+            pp.create_line_from_parameters(net, b[k], b[k + 1], 1. + k, 0.1, 0.1, 10, 0.4)
+        pp.create_load(net, b[1], 1., 0.3)
+        pp.create_load(net, b[4], 0.5, 0.1)
+        if kind == "unsupplied":
+            net.line.loc[1, "in_service"] = False
+        elif kind == "bus_out_of_service":
+            net.bus.loc[4, "in_service"] = False
+            net.load.loc[1, "in_service"] = False
+        pp.runpp(net, numba=False, lightsim2grid=False, recycle=dict(trafo=False, gen=False, bus_pq=True))
+        _FNET[kind] = net
+    return _FNET[kind]
+
+
+def make_batch_flows(kind):
+    """(B) branch flows of the batch reader: the real v_to_i_s on symbolic step voltages gives, for every branch of the net, the flow
+    V_f conj(Yf V) of the solved network where the branch is part of it and NaN where it is not (as the per-step result writer does)"""
+    def fn(ctx):
+        br = ctx.load("pandapower.timeseries.read_batch_results")
+        from pandapower.pypower.idx_brch import F_BUS, T_BUS
+        from pandapower.pypower.idx_bus import BASE_KV
+        from symx import core
+        net = copy.deepcopy(_flow_net(kind))
+        internal = net._ppc["internal"]
+        nbi = internal["bus"].shape[0]
+        vm = [ctx.var(f"vm{k}", 0.8, 1.2) for k in range(nbi)]
+        va = [ctx.var(f"va{k}", -60., 60.) for k in range(nbi)]
+        if ctx.symbolic:
+            V = [core.polar(vm[k], va[k]) for k in range(nbi)]
+        else:
+            import cmath
+            V = [cmath.rect(vm[k], np.deg2rad(va[k])) for k in range(nbi)]
+        Yf, Yt = np.asarray(internal["Yf"].todense()), np.asarray(internal["Yt"].todense())
+        extra = {}
+        if ctx.symbolic:
+            from symx.shim import DMat
+            internal["Yf"], internal["Yt"] = DMat(internal["Yf"]), DMat(internal["Yt"])
+            extra["polar_to_rad"] = lambda vm_, va_: ctx.array(V).reshape(1, -1)
+        with patched(br, **extra):
+            (sf, st), (sfa, sta), (ifa, ita) = br.v_to_i_s(net, ctx.array(vm).reshape(1, -1), ctx.array(va).reshape(1, -1))
+        nbr = net._ppc["branch"].shape[0]
+        ctx.true("one_column_per_branch_of_the_net", sf.shape == (1, nbr) and ita.shape == (1, nbr))
+        part = np.asarray(internal["branch_is"], dtype=bool)
+        base = internal["baseMVA"]
+        pos = -1
+        for k in range(nbr):
+            if not part[k]:
+                ctx.true(f"branch_outside_the_solved_network_reads_nan/{k}", bool(sf[0, k] != sf[0, k]) and bool(ifa[0, k] != ifa[0, k]))
+                continue
+            pos += 1
+            fb, tb = int(internal["branch"][pos, F_BUS].real), int(internal["branch"][pos, T_BUS].real)
+            If = sum(Yf[pos, j] * V[j] for j in range(nbi) if Yf[pos, j] != 0)
+            It = sum(Yt[pos, j] * V[j] for j in range(nbi) if Yt[pos, j] != 0)
+            Sf, St = V[fb] * If.conjugate() * base, V[tb] * It.conjugate() * base
+            for nm, got, want in (("p_from", sf[0, k].real, Sf.real), ("q_from", sf[0, k].imag, Sf.imag), ("p_to", st[0, k].real, St.real), ("q_to", st[0, k].imag, St.imag)):
+                ctx.close(f"batch_flow_is_the_flow_of_the_solved_network/{k}.{nm}", got, want, 1e-9)
+    return fn
+
+
 def instances(tier):
     out = []
     for tl in ("current", "power"):
         out.append(Inst(f"batch_values_{tl}", make_batch(tl), nvars=60, samples=2, max_paths=3000,
                         meta=dict(part="B", trafo_loading=tl), raises=(UserWarning,)))
+    for kind in ("all_supplied", "unsupplied", "bus_out_of_service"):
+        out.append(Inst(f"batch_flows_{kind}", make_batch_flows(kind), nvars=30, samples=2, meta=dict(part="B", flows=kind), raises=(UserWarning,)))
     for el, var in AC_PAIRS:
         out.append(Inst(f"ac_{el}.{var}", make_ac(el, var), nvars=14, samples=2, meta=dict(run="runpp", element=el, variable=var),
                         raises=(UserWarning,)))
     for el, var in DC_PAIRS:
         out.append(Inst(f"dc_{el}.{var}", make_dc(el, var), nvars=14, samples=2, meta=dict(run="rundcpp", element=el, variable=var),
                         raises=(UserWarning,)))
+    for el, var in [("trafo", "tap_pos"), ("line", "length_km"), ("load", "p_mw")] + ([("trafo", "vk_percent"), ("line", "r_ohm_per_km"), ("gen", "vm_pu")] if tier == "thorough" else []):
+        out.append(Inst(f"ac_open_switches_{el}.{var}", make_ac(el, var, "open_switches"), nvars=14, samples=2,
+                        meta=dict(run="runpp", element=el, variable=var, topology="open line switch, open trafo switch, line at an out of service bus"), raises=(UserWarning,)))
+    for el, var in [("trafo", "tap_pos"), ("line", "x_ohm_per_km")]:
+        out.append(Inst(f"dc_open_switches_{el}.{var}", make_dc(el, var, "open_switches"), nvars=14, samples=2,
+                        meta=dict(run="rundcpp", element=el, variable=var, topology="open line switch, open trafo switch, line at an out of service bus"), raises=(UserWarning,)))
     return out
 
 
